@@ -44,6 +44,7 @@ FLAT_TYPES = [
     ("string", "BYTE_ARRAY", {"logical": {"STRING": {}}, "converted": "UTF8"}, "text"),
     ("json", "BYTE_ARRAY", {"converted": "JSON"}, "json"),
     ("enum", "BYTE_ARRAY", {"converted": "ENUM"}, "text"),
+    ("dec30b", "BYTE_ARRAY", {"converted": "DECIMAL", "precision": 30, "scale": 5}, "dec30b"),
     ("fixed5", "FIXED_LEN_BYTE_ARRAY", {"type_length": 5}, "fixed5"),
     ("dec16", "FIXED_LEN_BYTE_ARRAY", {"type_length": 7, "converted": "DECIMAL", "precision": 16, "scale": 4}, "dec16"),
 ]
@@ -87,6 +88,10 @@ def value(kind, narrow=False):
         return st.integers(-2, 2) if narrow else st.integers(-10 ** 15, 10 ** 15)
     if kind == "dec16":
         return st.integers(-2, 2) if narrow else st.integers(-10 ** 15, 10 ** 15)
+    if kind == "dec30b":
+        # variable-length two's complement (what parquet-mr writes for high precisions): 1..9 bytes here
+        return st.integers(-2, 2) if narrow else st.one_of(st.integers(-10 ** 20, 10 ** 20), st.integers(-70000, 70000),
+                                                           st.sampled_from([0, -1, 127, 128, -128, -129, 32767, 32768]))
     if kind == "i96":
         return st.one_of(st.sampled_from([0, 1, 86400 * 10 ** 9 - 1, -1, 1470092881000000000]),
                          st.integers(-4 * 10 ** 18, 4 * 10 ** 18))
